@@ -14,9 +14,11 @@ import (
 // Lean side runs the runtime model (Model.lean) on the same history and must print the same events,
 // contents and index lookups at every step.  Lean: ExactDriver.lean.
 type exactRun struct {
-	c    *caseRun
-	sub  *subscriber
-	seen int
+	c      *caseRun
+	sub    *subscriber
+	seen   int
+	paused bool
+	gate   chan struct{}
 }
 
 func newExactRun(head []string) runner {
@@ -27,7 +29,13 @@ func newExactRun(head []string) runner {
 	return &exactRun{c: newCaseRun(tr, false)}
 }
 
-func (r *exactRun) close() { r.c.close() }
+func (r *exactRun) close() {
+	if r.paused {
+		r.c.gate.Store(nil)
+		close(r.gate)
+	}
+	r.c.close()
+}
 
 func all(string) bool { return true }
 
@@ -36,7 +44,10 @@ func (r *exactRun) showStep() string {
 	evs := r.sub.snapshot()
 	step := append([]string(nil), evs[r.seen:]...)
 	r.seen = len(evs)
-	sort.Strings(step)
+	// stable, by key only: the events of one key keep their order
+	sort.SliceStable(step, func(a, b int) bool {
+		return strings.SplitN(step[a], "~", 3)[1] < strings.SplitN(step[b], "~", 3)[1]
+	})
 	s := fmt.Sprintf("e=%d", len(step))
 	for _, e := range step {
 		s += " " + e
@@ -48,6 +59,10 @@ func (r *exactRun) step(toks []string) (string, string) {
 	line := strings.Join(toks, " ")
 	after := func() string {
 		if r.c.der == nil {
+			return "ok"
+		}
+		if r.paused {
+			synctest.Wait() // the batch of this change is queued before the next change is made
 			return "ok"
 		}
 		return r.showStep()
@@ -73,6 +88,12 @@ func (r *exactRun) step(toks []string) (string, string) {
 	case toks[0] == "s.del" && len(toks) == 2:
 		r.c.sec.DeleteObject(toks[1])
 		return after(), line
+	case toks[0] == "p.reset":
+		r.c.prim.Reset(parseObjs(toks[1:]))
+		return after(), line
+	case toks[0] == "s.reset":
+		r.c.sec.Reset(parseObjs(toks[1:]))
+		return after(), line
 	case toks[0] == "start" && len(toks) == 1:
 		if r.c.der != nil {
 			return "bad-op", line
@@ -84,6 +105,25 @@ func (r *exactRun) step(toks []string) (string, string) {
 				r.sub.record(e)
 			}
 		}, true)
+		return r.showStep(), line
+	case toks[0] == "pause" && len(toks) == 2:
+		o, ok := parseObj(toks[1])
+		if !ok || r.c.der == nil || r.paused || o.Name != "zz" {
+			return "bad-op", line
+		}
+		r.gate = make(chan struct{})
+		r.c.gate.Store(&r.gate)
+		r.paused = true
+		r.c.prim.UpdateObject(o)
+		synctest.Wait() // the queue worker now sits at the end of blk's transformation
+		return "ok", line
+	case toks[0] == "resume" && len(toks) == 1:
+		if !r.paused {
+			return "bad-op", line
+		}
+		r.paused = false
+		r.c.gate.Store(nil)
+		close(r.gate)
 		return r.showStep(), line
 	case toks[0] == "lookup" && len(toks) == 2:
 		if r.c.der == nil {
@@ -141,13 +181,71 @@ func genExactCase(r *wire.Rng, n int, w *wire.Out) {
 	}
 	w.Line("start")
 	nops := 4 + r.Intn(36)
+	pausedLeft := 0
+	nblk := 0
+	// The model has the full scan of changedInputKeys, not its reverse-index pre-filter, which recomputes a
+	// superset of inputs. With the queue held an extra recompute reads fetched objects whose own events are
+	// still queued and delivers an Update earlier than the model does (same contents, both streams well formed):
+	// hold the queue only when krt itself scans (no key / index atom in any fetch).
+	canHold := true
+	for _, f := range t.Fetches {
+		for _, a := range f {
+			switch a.Kind {
+			case "key", "keys", "objName", "nsIndex", "valIndex":
+				canHold = false
+			}
+		}
+	}
+	// while the queue is held and the transformation fetches, a batch of the fetched collection recomputes
+	// several inputs in Go map order: keep the barrier discipline inside the block (a key has one claimant
+	// from the pause on), otherwise the real outcome depends on that order (the schedule dependent form of F6)
+	held := map[string]string{}
+	disc := func(o Obj) Obj {
+		if free || pausedLeft == 0 {
+			return o
+		}
+		var keep []string
+		for _, k := range o.Outs {
+			if q, f := held[k]; f && q != o.ResourceName() {
+				continue
+			}
+			held[k] = o.ResourceName()
+			keep = append(keep, k)
+		}
+		o.Outs = keep
+		return o
+	}
 	for i := 0; i < nops; i++ {
-		switch x := r.Intn(100); {
+		// hold the queue for the next few changes: schedule [env, ..., env, proc, ..., proc]
+		if pausedLeft == 0 && canHold && r.Chance(8, 100) {
+			nblk++
+			blk := Obj{NS: "n1", Name: "zz", Val: fmt.Sprintf("b%d", nblk), Ref: "n1/x"}
+			prim[blk.ResourceName()] = blk
+			w.Line("pause", blk.Token())
+			pausedLeft = 2 + r.Intn(5)
+			held = map[string]string{}
+			for p, o := range prim {
+				for _, k := range o.Outs {
+					held[k] = p
+				}
+			}
+		} else if pausedLeft > 0 {
+			pausedLeft--
+			if pausedLeft == 0 {
+				w.Line("resume")
+			}
+		}
+		x := r.Intn(100)
+		if pausedLeft > 0 && x >= 90 {
+			x = r.Intn(90) // no Reset / lookup while the queue is held
+		}
+		switch {
 		case x < 35:
 			o := genObj(r, pnames)
 			if !free || r.Chance(40, 100) {
 				o = uniq(o)
 			}
+			o = disc(o)
 			prim[o.ResourceName()] = o
 			w.Line("p.set", o.Token())
 		case x < 42:
@@ -172,9 +270,64 @@ func genExactCase(r *wire.Rng, n int, w *wire.Out) {
 			}
 			delete(sec, k)
 			w.Line("s.del", k)
+		case x < 94 && !free:
+			// Reset: one atomic batch with several events; claims stay unique (objects dropped, payloads changed)
+			if r.Chance(50, 100) {
+				toks := []string{"p.reset"}
+				np := map[string]Obj{}
+				for _, k := range keys(prim) {
+					if r.Chance(70, 100) {
+						o := prim[k]
+						if r.Chance(50, 100) {
+							o.Val = wire.Pick(r, vals)
+							o.Labels = genLabels(r, 60)
+						}
+						np[k] = o
+						toks = append(toks, o.Token())
+					}
+				}
+				if r.Chance(40, 100) {
+					// claims of the dropped objects stay taken: no key changes parent inside the batch (with
+					// fetches the reverse-index pre-filter of changedInputKeys, which the model does not have,
+					// would make a stale F6 mapping visible through an extra recompute)
+					o := uniq(genObj(r, pnames))
+					if _, f := np[o.ResourceName()]; !f {
+						np[o.ResourceName()] = o
+						toks = append(toks, o.Token())
+					}
+				}
+				prim = np
+				w.Line(toks...)
+			} else {
+				toks := []string{"s.reset"}
+				ns := map[string]Obj{}
+				for _, k := range keys(sec) {
+					if r.Chance(65, 100) {
+						o := sec[k]
+						if r.Chance(50, 100) {
+							o.Labels = genLabels(r, 60)
+							o.Val = wire.Pick(r, vals)
+						}
+						ns[k] = o
+						toks = append(toks, o.Token())
+					}
+				}
+				if r.Chance(50, 100) {
+					o := genObj(r, snames)
+					if _, f := ns[o.ResourceName()]; !f {
+						ns[o.ResourceName()] = o
+						toks = append(toks, o.Token())
+					}
+				}
+				sec = ns
+				w.Line(toks...)
+			}
 		default:
 			w.Line("lookup", wire.Pick(r, nss))
 		}
+	}
+	if pausedLeft > 0 {
+		w.Line("resume")
 	}
 	for _, ns := range nss {
 		w.Line("lookup", ns)
